@@ -140,5 +140,7 @@ func VerifC13Race(h *verifh.H) {
 	check("after the race")
 	hub = hub.Restart()
 	check("after a restart")
-	h.Observe("p1", p1)
+	// (which client gets which prefix depends on the schedule; only schedule-independent
+	// values are observed for the concolic validation)
+	h.Observe("same", p1 == p2)
 }
